@@ -881,3 +881,40 @@ fn print_version_full()
 	print_version_short();
 	println!("https://github.com/hlorenzi/customasm");
 }
+
+
+
+/// Verification hook: runs the assemble-and-write sequence of
+/// `assemble_with_command` on explicitly given output groups.
+#[cfg(hlorenzi_customasm_verif)]
+pub fn verif_run_groups(
+	report: &mut diagn::Report,
+	fileserver: &mut dyn util::FileServer,
+	opts: asm::AssemblyOptions,
+	input_filenames: Vec<String>,
+	groups: Vec<(Option<OutputFormat>, bool, Option<String>)>,
+	quiet: bool)
+	-> Result<asm::AssemblyResult, ()>
+{
+	let command = Command {
+		input_filenames,
+		output_groups: groups
+			.into_iter()
+			.map(|g| CommandOutput {
+				format: g.0,
+				printout: g.1,
+				output_filename: g.2,
+			})
+			.collect(),
+		opts,
+		quiet,
+		use_colors: false,
+		show_version: false,
+		show_help: false,
+	};
+
+	assemble_with_command(
+		report,
+		fileserver,
+		&command)
+}
